@@ -22,8 +22,15 @@
 (*                                                                         *)
 (* One event = one TRANSACTION with Len(digests) MsgCreateRecord messages  *)
 (* of one creator.  digests[i] is the abstract value of the i-th message's *)
-(* contents ("" = no contents, "!" = a content without digest: refused by  *)
-(* ValidateBasic).  poison = the transaction also carries a message that   *)
+(* contents: a LIST of content entries (digest, algo, uri, meta), written  *)
+(* e1+e2+... with entries  base[~mirror][^algo]  — "a+a~1" are two entries *)
+(* that share digest and algo and differ in uri/meta, "a+a" two identical  *)
+(* entries, "a^md5+a" two that differ in the algo only.  The model treats  *)
+(* the value as opaque (the code stores the list as it is); the harness    *)
+(* compares every field of every entry, in order, between the submitted    *)
+(* message and what is read back.  "" = no contents, "!" = a content       *)
+(* without digest: refused by ValidateBasic.  ev.shape = coverage tags of  *)
+(* the submitted lists, filled in by the harness.  poison = the transaction also carries a message that   *)
 (* fails after the records were added (everything is rolled back).         *)
 (*                                                                         *)
 (* Long histories: st.rec holds the records the harness logs explicitly —  *)
@@ -45,7 +52,7 @@ VARIABLES st, ev, gh, hist
 vars == <<st, ev, gh, hist>>
 
 NoEv == [name |-> "Init", who |-> "", digests |-> <<>>, tx |-> "", poison |-> FALSE,
-         ok |-> TRUE, panic |-> FALSE, ids |-> <<>>]
+         ok |-> TRUE, panic |-> FALSE, ids |-> <<>>, shape |-> <<>>]
 
 Fail(s, w) == [ok |-> FALSE, panic |-> FALSE, st |-> s, why |-> w, ids |-> <<>>]
 Done(s, ids) == [ok |-> TRUE, panic |-> FALSE, st |-> s, why |-> "", ids |-> ids]
@@ -160,7 +167,7 @@ CreateRecord ==
        LET ds == c.ds  poison == c.poison IN
        Step([name |-> "CreateRecord", who |-> who, digests |-> ds,
              tx |-> "t" \o ToString(gh.ntx + 1), poison |-> poison,
-             ok |-> TRUE, panic |-> FALSE, ids |-> <<>>])
+             ok |-> TRUE, panic |-> FALSE, ids |-> <<>>, shape |-> <<>>])
 
 Next == CreateRecord
 Spec == Init /\ [][Next]_vars
